@@ -31,6 +31,10 @@ CHECKS = {
   technique="Lean 4 proof (kernel-checked finite tables + induction over the double loop) over tables regenerated from _state.py + translation validation + differential correspondence (small shapes exhaustive)",
   text="The state table, enum and DigitalState.test are regenerated from the source each run; the table is proved equal to NI's compatibility table (specification constant), symmetric, reflexive, X-compatible with everything, DigitalState.test is proved to fail exactly on incompatible pairs and to raise ValueError for non-states; the model of waveform.test (argument checks + double loop) is proved, for all waveforms, signal counts and windows, to return exactly the list of incompatible positions with the right two sample indices, signal index and states in sample-then-column order, and ValueError for windows that do not fit or differing signal counts; to_char/from_char are proved inverse over '01ZLHXTV'.",
   note="Trusted: hand model NiVerif/Model/DigitalTest.lean of the argument checks and loops (tie: all 64 pairs, all 1x1/1x2/2x1 waveform pairs exhaustively in thorough, seeded 2x2 and larger ones with every window relation, bool/int8 dtypes, values 8..255); niTable in Props/C16.lean is the specification."),
+ "C06": dict(
+  technique="Lean 4 proof (induction over the mask loop, bit-level lemmas) over a hand model with regenerated kernels + translation validation + differential correspondence (8-bit ports exhaustive)",
+  text="For every port width, mask that fits the port, bit order and sample value the model of from_port is proved to produce one row per sample and one column per set mask bit, the row being the sample's bits at the set positions (descending for 'big', ascending for 'little'), so signal i = column n-1-i holds the i-th lowest ('big') / highest ('little') set bit; masks wider than the port are proved rejected (ValueError), negative masks too; bit_mask and the port-width choice are regenerated from the source and proved to be 2^n-1 and the smallest of 8/16/32 bits. The real from_port/from_ports are run on every 8-bit value x mask x order, on 16/32-bit samples, and on list / native / byte-swapped / strided / read-only inputs, three state dtypes and row windows, and compared with the model and the bit formula.",
+  note="Trusted: hand model NiVerif/Model/Port.lean (the while loop of _mask_to_column_indices, unpacking, column selection, row window); NumPy's ascontiguousarray/view/unpackbits are collapsed to a function of the integer values — that independence is established by the correspondence over representations, not by a theorem."),
 }
 def main():
     checks = []
